@@ -76,7 +76,7 @@ class Mini:
                     p += 12 + ((ns + 3) & ~3) + ((ds + 3) & ~3)
                     k += 1
             elif t == 5:    # SysV hash header + first words
-                for k, n in enumerate(('nbucket', 'nchain', 'bucket0', 'bucket1')):
+                for k, n in enumerate(('nbucket', 'nchain', 'bucket0', 'bucket1', 'word4', 'word5', 'word6', 'word7', 'word8', 'word9')):
                     if 4 * k + 4 <= size:
                         out.append(('hash.' + n, off + 4 * k, 4))
             elif t == 0x6ffffff6:
@@ -85,6 +85,16 @@ class Mini:
                         out.append(('gnuhash.' + n, off + 4 * k, 4))
                 if size >= 16 + W + 4:
                     out.append(('gnuhash.bloom0', off + 16, W))
+                # bucket words and the first chain words (walks driven by them must stay inside the table)
+                nb, bs = self.u(off, 4), self.u(off + 8, 4)
+                bo = off + 16 + bs * W
+                for k in range(min(nb, 8)):
+                    if bo + 4 * k + 4 <= off + size:
+                        out.append(('gnuhash.bucket%d' % k, bo + 4 * k, 4))
+                co = bo + 4 * nb
+                for k in range(8):
+                    if co + 4 * k + 4 <= off + size:
+                        out.append(('gnuhash.chain%d' % k, co + 4 * k, 4))
             elif t == 0x6ffffffe and size >= 16:
                 for n, o, w in (('vn_version', 0, 2), ('vn_cnt', 2, 2), ('vn_file', 4, 4), ('vn_aux', 8, 4), ('vn_next', 12, 4)):
                     out.append(('verneed.' + n, off + o, w))
